@@ -94,8 +94,35 @@ def _close_discipline(p, mod, fd, c):
         if not pre and not opened_before:
             return None, 'stream/flag are not pre-initialised before the try'
         return True, 'opened atomically with its close-flag inside try; finally closes it under the flag'
+    # not an idiom: the fresh handle is an argument of a call that can fail (a constructor that reads the first record, say): until
+    # that call returns nothing else refers to the descriptor, so nobody can close it when the call raises
+    if isinstance(par, ast.Call) and par is not c and any(a is c for a in list(par.args) + [k.value for k in par.keywords]):
+        nm = (dotted(par.func) or '').split('.')[-1]
+        callee = None
+        for m2 in p.modules:
+            k_ = p.cls(m2, nm, required=False)
+            if k_ is not None:
+                inits = [m_ for m_ in k_.body if isinstance(m_, ast.FunctionDef) and m_.name == '__init__']
+                callee = inits[0] if inits else None
+                break
+            f_ = p.func(m2, nm, required=False)
+            if f_ is not None:
+                callee = f_
+                break
+        if callee is not None:
+            prm = None
+            pos_ = [i for i, a in enumerate(par.args) if a is c]
+            if pos_:
+                off = 1 if callee.args.args and callee.args.args[0].arg == 'self' else 0
+                if pos_[0] + off < len(callee.args.args):
+                    prm = callee.args.args[pos_[0] + off].arg
+            can_fail = [x for x in walk_no_nested(callee) if isinstance(x, (ast.Call, ast.Raise))]
+            protected = any(isinstance(t_, ast.Try) and (t_.finalbody or t_.handlers) and prm and any(isinstance(x, ast.Call) and dotted(x.func) == prm + '.close' for x in ast.walk(t_)) for t_ in ast.walk(callee))
+            if can_fail and not protected:
+                return False, 'the file is opened as an argument of `{}(...)`: while that call runs nothing else refers to the descriptor, so when it raises (e.g. the first record cannot be decoded) the file stays open'.format(nm)
+        return None, 'open() passed directly to `{}`: what happens to the handle when that call fails is not decided'.format(nm)
     # idiom 3: handle stored on self, closed by finish() which the creator calls in a finally
-    if isinstance(st, ast.Assign) and (dotted(st.targets[0]) or '').startswith('self.'):
+    if isinstance(st, ast.Assign) and st.value is c and (dotted(st.targets[0]) or '').startswith('self.'):
         attr = dotted(st.targets[0])
         cls = fd.parent if isinstance(fd.parent, ast.ClassDef) else None
         if cls is None:
